@@ -231,21 +231,33 @@ func procCPU(pid int) (time.Duration, bool) {
 // libFrameFromDump finds the innermost library function in the first
 // goroutine stack of a crash / SIGQUIT dump.
 func libFrameFromDump(dump string) string {
-	lines := strings.Split(dump, "\n")
-	start := 0
-	for i, l := range lines {
-		if strings.HasPrefix(l, "goroutine ") && strings.Contains(l, "[running]") {
-			start = i
-			break
+	// Split into goroutine blocks; prefer a goroutine blocked on a lock
+	// (deadlock inside the library), then the running one, then any.
+	type block struct {
+		header string
+		frame  string
+	}
+	var blocks []block
+	cur := -1
+	for _, l := range strings.Split(dump, "\n") {
+		t := strings.TrimSpace(l)
+		if strings.HasPrefix(t, "goroutine ") && strings.HasSuffix(t, ":") {
+			blocks = append(blocks, block{header: t})
+			cur = len(blocks) - 1
+			continue
+		}
+		if cur >= 0 && blocks[cur].frame == "" && strings.HasPrefix(t, libPrefix) {
+			if k := strings.LastIndexByte(t, '('); k > 0 {
+				t = t[:k]
+			}
+			blocks[cur].frame = normFunc(t)
 		}
 	}
-	for _, l := range lines[start:] {
-		l = strings.TrimSpace(l)
-		if strings.HasPrefix(l, libPrefix) {
-			if j := strings.LastIndexByte(l, '('); j > 0 {
-				l = l[:j]
+	for _, want := range []string{"sync.", "semacquire", "[running]", ""} {
+		for _, b := range blocks {
+			if b.frame != "" && strings.Contains(b.header, want) {
+				return b.frame
 			}
-			return normFunc(l)
 		}
 	}
 	return ""
